@@ -179,6 +179,19 @@ def run(tier="quick", seed=0):
                     if not same(res, ["first", {"second": 2}, "last"]) or ran != want_ran:
                         fail("batch_results_in_order", {"batch": "call, notification, call, notification, call", "version": version,
                                                         "server": server_cls.__name__}, "results %r; executed %d job(s)" % (res, len(log)))
+                    # the same MultiCall object used again: only the jobs recorded since the last execution travel
+                    n += 1
+                    del log[:]
+                    batch.echo("again")
+                    res2 = list(batch())
+                    deadline = _t.time() + 0.3
+                    while _t.time() < deadline and len(log) < 2:
+                        _t.sleep(0.01)
+                    if not same(res2, ["again"]) or [(a, k) for _, a, k in log] != [(("again",), {})]:
+                        fail("batch_results_in_order", {"batch": "a second execution of the MultiCall that sent call, notification, "
+                                                                 "call, notification, call", "version": version,
+                                                        "server": server_cls.__name__},
+                             "results %r; executed %r" % (res2, [(a, k) for _, a, k in log]))
                 except Exception as e:     # noqa
                     fail("batch_results_in_order", {"batch": "call, notification, call, notification, call", "version": version,
                                                     "server": server_cls.__name__}, "raised %s: %s" % (type(e).__name__, str(e)[:120]))
